@@ -85,7 +85,7 @@ theorem eval_ok (cfg : Cfg) (d : Date) (t : Time) (hv : ValidCfg cfg) (hd : Vali
       | none => exact ⟨_, rfl⟩
       | some wk =>
         simp only []
-        have hl := hwk wk hw
+        have hl : wk.length = 7 := by rw [hw] at hwk; exact hwk
         have hne : wk.isEmpty = false := by
           cases wk with
           | nil => simp at hl
